@@ -2,3 +2,6 @@
 import Woodpile.Gen.Consts
 import Woodpile.Model.Arena
 import Woodpile.Model.ReadN
+import Woodpile.Model.SlidingDeque
+import Woodpile.Proofs.SlidingDeque
+import Woodpile.Props.C15
